@@ -198,6 +198,13 @@ fn write_bounds<W: Write>(instance: &v1::Instance, out: &mut W) -> Result<(), Mp
             };
             writeln!(out, "  {up_kind} BND1    {name}  {}", bound.upper)?;
             writeln!(out, "  {low_kind} BND1    {name}  {}", bound.lower)?;
+        } else if dvar.kind == 1 {
+            // binary variable without explicit bound: [0, 1]
+            writeln!(out, "  UI BND1    {name}  1")?;
+            writeln!(out, "  LI BND1    {name}  0")?;
+        } else {
+            // unspecified bound means unbounded, while the default of MPS is [0, +inf)
+            writeln!(out, "  FR BND1    {name}")?;
         };
     }
     Ok(())
